@@ -154,7 +154,11 @@ func cmdFn(args []string) {
 	replay := fs.Bool("replay", false, "run replays for failing obligations")
 	verbose := fs.Bool("v", false, "print discharged obligations too")
 	depth := fs.Int("depth", -1, "inline depth for callees without contract (-1 = default)")
+	locks := fs.String("locks", "", "lite: comma separated mutex field names to track")
 	fs.Parse(args)
+	if *locks != "" {
+		lockFilter = strings.Split(*locks, ",")
+	}
 	t0 := time.Now()
 	w, err := loadWorld(strings.Split(*pkgs, ","))
 	if err != nil {
@@ -221,6 +225,7 @@ type propUnit struct {
 	Bounded string   `json:"bounded,omitempty"` // non-empty: this unit is a bounded stand-in; the text states the bound
 	Tier    string   `json:"tier,omitempty"`    // "thorough": only in the thorough tier
 	Depth   *int     `json:"depth,omitempty"`   // inline depth for callees without contract (default 4)
+	Locks   []string `json:"locks,omitempty"`   // lite units: mutex field names to track (default all)
 	Exclude []string `json:"exclude,omitempty"` // obligation name patterns (* wildcard) generated but NOT claimed; listed in the evidence
 	Why     string   `json:"why_excluded,omitempty"`
 }
@@ -327,6 +332,7 @@ func cmdCheck(args []string) {
 	prop := fs.String("prop", "", "property id")
 	tier := fs.String("tier", "quick", "quick|thorough")
 	keep := fs.Bool("keep", false, "keep smt files")
+	noEvidence := fs.Bool("noevidence", false, "do not write evidence/replays under /verif (runs against scratch trees)")
 	fs.Parse(args)
 	if t := os.Getenv("VERIF_TIER"); t != "" && *tier == "" {
 		*tier = t
@@ -360,7 +366,11 @@ func cmdCheck(args []string) {
 	smtDir, _ := os.MkdirTemp("", "govc-"+pc.ID+"-")
 	defer os.RemoveAll(smtDir)
 	replayDir := filepath.Join(verifDir, "replays", pc.ID)
-	os.RemoveAll(replayDir)
+	if *noEvidence {
+		replayDir = filepath.Join(smtDir, "replays")
+	} else {
+		os.RemoveAll(replayDir)
+	}
 
 	type sample struct {
 		Name   string  `json:"obligation"`
@@ -404,7 +414,8 @@ func cmdCheck(args []string) {
 				continue
 			}
 			funcs = append(funcs, u.Func)
-			g, res, err := verifyFunc(w, fn, u.Lite, u.depth(), u.Exclude, dischargeOpts{dir: smtDir, timeout: timeout, parallel: parallelism(), cross: *tier == "thorough", keep: *keep})
+			lockFilter = u.Locks
+		g, res, err := verifyFunc(w, fn, u.Lite, u.depth(), u.Exclude, dischargeOpts{dir: smtDir, timeout: timeout, parallel: parallelism(), cross: *tier == "thorough", keep: *keep})
 			if err != nil {
 				engineErrors = append(engineErrors, err.Error())
 				continue
@@ -529,9 +540,11 @@ func cmdCheck(args []string) {
 		"property_id": pc.ID, "tier": *tier, "seed": seed, "level": "proof", "coverage": cov, "assumptions": assumptions,
 		"wall_s": float64(int(wall*100)) / 100, "violations": violations,
 	}
-	os.MkdirAll(filepath.Join(verifDir, "evidence"), 0o755)
-	eb, _ := json.MarshalIndent(ev, "", " ")
-	os.WriteFile(filepath.Join(verifDir, "evidence", pc.ID+".json"), eb, 0o644)
+	if !*noEvidence {
+		os.MkdirAll(filepath.Join(verifDir, "evidence"), 0o755)
+		eb, _ := json.MarshalIndent(ev, "", " ")
+		os.WriteFile(filepath.Join(verifDir, "evidence", pc.ID+".json"), eb, 0o644)
+	}
 	fmt.Printf("property %s (%s): %d obligations, %d discharged, %d known findings, %d bounded (%d discharged), %d functions, %.1fs\n",
 		pc.ID, *tier, total, discharged, knownN, boundedTotal, boundedDischarged, len(funcs), wall)
 	if total+boundedTotal == 0 {
